@@ -321,6 +321,67 @@ func VerifC17Accept() {
 	verifrt.Reached("end")
 }
 
+// VerifC17Depth: documents nested n levels deep (shape 0: arrays, 1: objects,
+// 2: alternating) around one arbitrary byte, with n at the nesting limit of
+// encoding/json (10000): valid, Compact, Unmarshal (and Indent, for the shallow ones) accept the
+// document iff n <= 10000 and the one-level document around the same byte is
+// valid. (Unmarshal is only required to reject: decoding 10000 levels needs
+// more interpreter call depth than the engine allows.)
+func VerifC17Depth() {
+	n := verifrt.Param("n")
+	shape := verifrt.Param("shape")
+	// the innermost byte is arbitrary for shallow documents and one of three
+	// fixed bytes for deep ones (every path re-scans the whole document)
+	var b byte
+	if n <= 2 {
+		b = verifrt.Byte("b")
+	} else {
+		b = [...]byte{'1', ' ', 'x'}[verifrt.Param("inner")]
+	}
+	open := func(k int) string {
+		if shape == 1 || shape == 2 && k%2 == 1 {
+			return `{"k":`
+		}
+		return "["
+	}
+	clos := func(k int) string {
+		if shape == 1 || shape == 2 && k%2 == 1 {
+			return "}"
+		}
+		return "]"
+	}
+	var doc []byte
+	for k := 0; k < n; k++ {
+		doc = append(doc, open(k)...)
+	}
+	doc = append(doc, b)
+	for k := n - 1; k >= 0; k-- {
+		doc = append(doc, clos(k)...)
+	}
+	small := append(append([]byte(open(n-1)), b), clos(n-1)...)
+	want := n <= 10000 && refValid(small)
+	var got bool
+	var cerr, ierr, uerr error
+	verifrt.NoPanic("deep-document-no-panic", func() {
+		got = valid(doc)
+		var cb, ib bytes.Buffer
+		cerr = compact(&cb, doc, false)
+		if n <= 2 {
+			// (Indent loops once per nesting level at every newline: quadratic)
+			ierr = indentBuffer(&ib, doc, "", "")
+		}
+	})
+	verifrt.Assert(got == want, "nesting-limit-valid-agrees-with-encoding-json")
+	verifrt.Assert((cerr == nil) == want, "nesting-limit-compact")
+	verifrt.Assert(n > 2 || (ierr == nil) == want, "nesting-limit-indent")
+	if !want {
+		// last: a decoder that wrongly accepts recurses beyond the engine's call depth
+		verifrt.NoPanic("deep-document-unmarshal-no-panic", func() { _, uerr = Unmarshal(doc) })
+	}
+	verifrt.Assert(want || uerr != nil, "nesting-limit-unmarshal-rejects")
+	verifrt.Reached("end")
+}
+
 type verifTextM struct {
 	ugo.ObjectImpl
 	s string
